@@ -554,6 +554,7 @@ def build_explainer(world, ecfg):
     names = list(world.names)
     if ecfg.get("names_subset") is not None:
         names = [world.names[i] for i in ecfg["names_subset"]]
+    given = list(names)
     loss = world.loss
     if ecfg.get("loss_override") is not None:
         loss = ecfg["loss_override"]
@@ -564,7 +565,8 @@ def build_explainer(world, ecfg):
             e = cls(world.model, names, loss, **kw)
     else:
         e = cls(model_function=world.model, loss_function=loss, feature_names=names, **kw)
-    e._sim_names = list(names)
+    e._sim_names = list(given)
+    e._sim_names_obj = names          # the very list object the caller handed over
     return e
 
 
